@@ -64,11 +64,14 @@ type Model struct {
 	Rec     *Rec
 	Allocs  map[string]*MAlloc // client key -> latest allocation
 	ByRelay map[string]*MAlloc // relay address -> latest allocation using it
-	PermTO  time.Duration
-	ChanTO  time.Duration
-	DefLife time.Duration
-	MTU     int
-	deny    map[string]bool
+	// RelayMayRunOut: the server's relay address generator draws from a small range, a plain
+	// Allocate may legitimately be answered 508 (Insufficient Capacity).
+	RelayMayRunOut bool
+	PermTO         time.Duration
+	ChanTO         time.Duration
+	DefLife        time.Duration
+	MTU            int
+	deny           map[string]bool
 	// Unsure is set when an observation made the model lose track (lost response etc.).
 	reqs map[[12]byte][]*reqInfo
 	cur  *Step
@@ -212,7 +215,17 @@ func (a *MAlloc) gc() {
 	a.Chans = out
 }
 
-// AllocByRelay finds the allocation that owns a relayed address.
+// relayKey is the ByRelay key of a relayed transport address: UDP port n and TCP port n of the
+// same host are different addresses.
+func relayKey(addr string, tcp bool) string {
+	if tcp {
+		return "tcp/" + addr
+	}
+
+	return addr
+}
+
+// AllocByRelay finds the allocation that owns a relayed address (relayKey form).
 func (m *Model) AllocByRelay(addr string) (*MAlloc, Tri) {
 	a := m.ByRelay[addr]
 	if a == nil {
